@@ -1242,6 +1242,68 @@ mod tests {
     }
 
     #[test]
+    fn vector_in_an_untyped_position_is_budgeted_as_its_read_back_shape() {
+        // Regression: a `Vector` is one node for the complexity budget, but
+        // where no declared `Vector` type folds it back (an element of
+        // `Array([])`, a value of `Map({})`) it is read back as an array of
+        // bit patterns. `set_field` accepted such a value and `try_from_doc`
+        // then rejected the stored document for good.
+        use crate::{FieldEntry as Fe, FieldKey, FieldType as Ft, bf16};
+
+        let mut builder = Schema::builder();
+        for (name, ft) in [
+            ("any", Ft::Array(vec![])),
+            ("free", Ft::Map(BTreeMap::new())),
+            ("emb", Ft::Vector),
+            ("embs", Ft::Array(vec![Ft::Vector])),
+        ] {
+            builder
+                .add_field(Fe::new(name.into(), Ft::Option(Box::new(ft))).unwrap())
+                .unwrap();
+        }
+        let schema = builder.build().unwrap();
+        let schema = Arc::new(schema);
+        let vector = |n: usize| Fv::Vector(vec![bf16::from_f32(1.0); n]);
+        let stored = |doc: &Document| {
+            let mut buf = Vec::new();
+            cbor2::to_writer(doc, &mut buf).unwrap();
+            let owned: DocumentOwned = cbor2::from_reader(&buf[..]).unwrap();
+            Document::try_from_doc(schema.clone(), owned)
+        };
+        // Whatever a write accepts must be readable from its stored form.
+        let check = |name: &str, value: Fv| -> bool {
+            let mut doc = Document::new(schema.clone());
+            doc.set_id(1);
+            match doc.set_field(name, value) {
+                Ok(_) => {
+                    stored(&doc).unwrap_or_else(|err| {
+                        panic!("{name}: accepted on write, rejected on read: {err}")
+                    });
+                    true
+                }
+                Err(_) => false,
+            }
+        };
+
+        // Declared `Vector` positions have no length limit, as before.
+        assert!(check("emb", vector(5000)));
+        assert!(check("embs", Fv::Array(vec![vector(5000), vector(5000)])));
+
+        // Untyped positions: at the array-length limit it round-trips...
+        assert!(check("any", Fv::Array(vec![Fv::U64(1), vector(4096)])));
+        // ...and one element more is refused at write time.
+        assert!(!check("any", Fv::Array(vec![Fv::U64(1), vector(4097)])));
+        assert!(!check(
+            "free",
+            Fv::Map(BTreeMap::from([(FieldKey::Text("k".into()), vector(4097))]))
+        ));
+        // The node budget counts the elements too: 1 + 90 * (1 + 200) > 16384.
+        assert!(!check("any", Fv::Array((0..90).map(|_| vector(200)).collect())));
+        // 1 + 81 * (1 + 200) = 16282 <= 16384 still fits.
+        assert!(check("any", Fv::Array((0..81).map(|_| vector(200)).collect())));
+    }
+
+    #[test]
     fn absent_fields_are_omitted_so_serde_defaults_apply() {
         // Regression: absent fields used to serialize as an explicit `null`,
         // which `#[serde(default)]` never fills in (it only covers *missing*
